@@ -526,3 +526,104 @@ func (t *unionTable) discriminantsViaCallers(p *core.Prog, f *core.Fn, base ast.
 	}
 	return names, others, excluded, seen
 }
+
+// producerNoSuccessBeforeTheSwitch: the producer of a tagged union (discriminant + interface value) stores the value in
+// the arms of ONE switch over the discriminant; the consumer/producer table is derived from those arms.  A return that
+// can be a success (its error result is not certainly non-nil) and that lies AFTER the discriminant was decoded but
+// outside that switch — or inside a non-default arm ahead of the arm's store — hands out a known discriminant with a
+// nil value, which every consumer's unchecked type assertion turns into a panic.
+func producerNoSuccessBeforeTheSwitch(c *core.Ctx, rule string, us []union) {
+	p := c.P
+	n := 0
+	for _, u := range us {
+		f := p.Func(u.producer)
+		discF, valF := p.Field(u.pkg, u.typ, u.disc), p.Field(u.pkg, u.typ, u.val)
+		if f == nil || discF == nil || valF == nil || f.Decl.Body == nil {
+			continue
+		}
+		var sw *ast.SwitchStmt
+		ast.Inspect(f.Decl.Body, func(nd ast.Node) bool {
+			if s, ok := nd.(*ast.SwitchStmt); ok && sw == nil && s.Tag != nil && core.FieldOf(f.Pkg, s.Tag) == discF {
+				sw = s
+			}
+			return true
+		})
+		if sw == nil {
+			continue
+		}
+		c.Analysed(f)
+		certainErr := func(r *ast.ReturnStmt) bool {
+			if len(r.Results) == 0 {
+				return false
+			}
+			e := core.Unparen(r.Results[len(r.Results)-1])
+			if core.IsNilIdent(f.Pkg, e) {
+				return false
+			}
+			if call, ok := e.(*ast.CallExpr); ok {
+				if cal := core.Callee(f.Pkg, call); cal != nil && cal.Pkg() != nil && (cal.Pkg().Path() == "fmt" || cal.Pkg().Path() == "errors") {
+					return true
+				}
+				return false
+			}
+			for _, ft := range core.FactsAt(f, r) {
+				if x, ok := core.IsNilCheck(f.Pkg, ft.Expr); ok && !ft.Truth && core.SameExpr(f.Pkg, x, e) {
+					return true
+				}
+			}
+			return false
+		}
+		// where the discriminant becomes known: the first statement mentioning the discriminant field
+		discKnown := sw.Pos()
+		ast.Inspect(f.Decl.Body, func(nd ast.Node) bool {
+			if se, ok := nd.(*ast.SelectorExpr); ok && core.FieldOf(f.Pkg, se) == discF && se.Pos() < discKnown {
+				discKnown = se.Pos()
+			}
+			return true
+		})
+		ast.Inspect(f.Decl.Body, func(nd ast.Node) bool {
+			if _, isLit := nd.(*ast.FuncLit); isLit {
+				return false
+			}
+			r, ok := nd.(*ast.ReturnStmt)
+			if !ok || certainErr(r) {
+				return true
+			}
+			n++
+			construct := fmt.Sprintf("%s return #%d", f.Name(), retIndex(f, r))
+			switch {
+			case r.Pos() > sw.End():
+				c.Hold(rule, construct, r.Pos(), "behind the switch over the discriminant")
+			case r.Pos() < sw.Pos():
+				c.Check(r.Pos() < discKnown, rule, construct, r.Pos(),
+					"a return that may be a success lies between the decoding of the discriminant and the switch that stores the value for it: the caller gets a known "+u.disc+" with a nil "+u.val+", and the consumers' unchecked type assertions panic")
+			default:
+				// inside the switch: default arm, or behind a store of the value in its arm
+				ok := false
+				for _, cl := range sw.Body.List {
+					cc := cl.(*ast.CaseClause)
+					if r.Pos() < cc.Pos() || r.End() > cc.End() {
+						continue
+					}
+					if cc.List == nil {
+						ok = true
+					}
+					for _, st := range cc.Body {
+						if st.End() <= r.Pos() {
+							if as, isAs := st.(*ast.AssignStmt); isAs {
+								for _, l := range as.Lhs {
+									if core.FieldOf(f.Pkg, l) == valF {
+										ok = true
+									}
+								}
+							}
+						}
+					}
+				}
+				c.Check(ok, rule, construct, r.Pos(), "a return that may be a success sits in a non-default arm ahead of that arm's store of "+u.val)
+			}
+			return true
+		})
+	}
+	c.Check(n >= 2, rule, "producer returns examined", 0, fmt.Sprintf("examined %d possibly-successful returns of union producers", n))
+}
